@@ -1,7 +1,7 @@
 use crate::{
-    layouts::{VecZnx, VecZnxToMut, VecZnxToRef, ZnxInfos},
+    layouts::{VecZnx, VecZnxToMut, VecZnxToRef, ZnxInfos, ZnxView, ZnxViewMut},
     reference::{
-        vec_znx::{vec_znx_rotate_assign, vec_znx_switch_ring},
+        vec_znx::vec_znx_rotate_assign,
         znx::{ZnxCopy, ZnxRotate, ZnxSwitchRing, ZnxZero},
     },
 };
@@ -37,8 +37,29 @@ where
         assert_eq!(a.len(), _n_out / _n_in);
     }
 
+    let gap: usize = _n_out / _n_in;
+    let res_size: usize = res.size();
+
+    for j in 0..res_size {
+        ZNXARI::znx_zero(res.at_mut(res_col, j));
+    }
+
     a.iter().for_each(|ai| {
-        vec_znx_switch_ring::<_, _, ZNXARI>(&mut res, res_col, ai, a_col);
+        // Interleaves `ai` at the coefficients that are multiples of `gap`, leaving the
+        // coefficients already placed by the previous iterations in place (a full ring
+        // switch would clear them).
+        let ai: VecZnx<&[u8]> = ai.to_ref();
+        let min_size: usize = res_size.min(ai.size());
+        for j in 0..min_size {
+            res.at_mut(res_col, j)
+                .iter_mut()
+                .step_by(gap)
+                .zip(ai.at(a_col, j).iter())
+                .for_each(|(x_out, x_in)| *x_out = *x_in);
+        }
+        for j in min_size..res_size {
+            res.at_mut(res_col, j).iter_mut().step_by(gap).for_each(|x_out| *x_out = 0);
+        }
         vec_znx_rotate_assign::<_, ZNXARI>(-1, &mut res, res_col, tmp);
     });
 
